@@ -2,7 +2,7 @@
 # extra trusted-base items and assumptions.
 PROPS = {
  "C14": {
-  "tests": ["TestC14"],
+  "tests": ["TestC14", "TestC14Edge"],
   "rule": "every (interceptor kind, option list, acquire result, call error, classifier answer) combination is enumerated "
           "exhaustively for single calls, plus random RecvMsg/SendMsg sequences; a case is non-trivial when it performs a wrapped "
           "call with recording doubles installed; distinct = distinct (options, operation) tuples",
@@ -13,7 +13,7 @@ PROPS = {
                   "classifier answers range over success/ignore/dropped as the property states"],
  },
  "C04": {
-  "tests": ["TestC04"],
+  "tests": ["TestC04", "TestC04TableEdge"],
   "rule": "random valid configurations of AIMD/Vegas/Gradient/Gradient2, each plain, traced, windowed and traced(windowed); sample streams "
           "mix structured phases (steady, idle, overload, drop bursts), boundary-targeted values computed from the implementation's "
           "state (in-flight around est/2 and est, RTT solved for Vegas' queue thresholds, RTT = baseline +-1) and edge values "
@@ -106,7 +106,7 @@ PROPS = {
   "technique": "Coq invariant over limiter + strategy models + differential replay with drain oracle",
  },
  "C03": {
-  "tests": ["TestC03"],
+  "tests": ["TestC03", "TestC03Stress", "TestC03Races"],
   "rule": "random partition sets (fractions from a grid and random doubles, sums <= 1, overlapping predicates), key streams including unknown keys, interleaved releases, SetLimit (0, negative, "
           "repeats), dynamic add/remove; after every op all counts, limits and shares are compared; non-trivial = a distinct admission situation (total busy/limit, bin busy/limit, match, decision)",
   "level_text": "C03_admit_iff (exact admission rule incl. first-match, unknown and no-match), C03_reachable (shares of the current total, exact bins, sum) for every operation sequence, "
@@ -115,7 +115,7 @@ PROPS = {
   "technique": "Coq inductive invariant over all operation sequences + differential replay",
  },
  "C05": {
-  "tests": ["TestC05", "TestC05Races", "TestC05Stress"],
+  "tests": ["TestC05", "TestC05Races", "TestC05Stress", "TestC03Stress"],
   "rule": "default limiter over all four strategy kinds with a scripted limit double (estimates 0, negative, repeated, large), random histories plus closing bursts that fill and close windows "
           "at instants around the period end; after every forwarded window the strategy limit and every share are checked; a real-time replay of two overlapping window updates with a slow strategy; non-trivial = a distinct closed window",
   "level_text": "C05_sync_init, C05_sync_update (same step as the forwarded sample), C05_shares_follow (SetLimit keeps the invariant 'every live bin has the share of the current total').",
